@@ -410,3 +410,34 @@ example :
   decide
 
 end DastardV.C12
+
+namespace DastardV.C12
+
+/-- `RoachDevice.samplePacket`'s constructor call, evaluated -/
+theorem roachMk_eq (bias : Bool) (sign : Int) :
+    roachMk bias sign = some
+      ({ drop := 2, enable := true, invert := false, signMask := 16383, twoPi := 4096,
+         upper := (if bias then (if sign < 0 then -1557 else 1556) else 0) + 2048,
+         lower := (if bias then (if sign < 0 then -1557 else 1556) else 0) - 2048,
+         resetAfter := 20000, resetOffset := if sign > 0 then 4096 else 57344 },
+       { lastVal := 0, offset := if sign > 0 then 4096 else 57344, resetCount := 0 }) := by
+  unfold roachMk roachBias mk
+  cases bias <;> by_cases hs : sign < 0 <;> by_cases hp : sign > 0 <;>
+    simp only [hs, hp, if_true, if_false, Bool.false_eq_true] <;> first | rfl | decide | omega
+
+/-- **the parameters of a ROACH channel's unwrapper are valid for every option set**: quantum 2^12 (14 fraction
+bits, 2 dropped), limits `bias ± 2^11` with the bias 0 or ±0.38 ϕ0 — within half a quantum, which is what the
+step rule needs (`C12_step_rule`, `C12_reset_rule_global` apply).  With the bias level of `calcBiasLevel` taken
+unscaled (2^16 per ϕ0, as the code did before the repair) the reduced bias is 2130 > 2^11 and this fails. -/
+theorem roach_params_valid (bias : Bool) (sign : Int) :
+    ∃ p s b, roachMk bias sign = some (p, s) ∧ Valid p b 2048 ∧ Good p s ∧
+      p.invert = false ∧ p.drop = 2 ∧ p.enable = true ∧ p.twoPi = 4096 ∧ p.resetAfter = 20000 ∧
+      (b = if bias then (if sign < 0 then -1557 else 1556) else 0) := by
+  refine ⟨_, _, _, roachMk_eq bias sign, ?_, ?_, rfl, rfl, rfl, rfl, rfl, rfl⟩
+  · constructor <;> (try simp only) <;> (try split) <;> (try split) <;> (try decide) <;> (try omega)
+  · constructor <;> simp only <;> (try split) <;> (try omega) <;> (try decide)
+
+/-- the unscaled bias level is NOT within half a quantum: limits 82 .. 4178, i.e. a reduced bias of 2130 > 2048 -/
+example : (mk 14 2 true 24904 20000 1 false).map (fun x => (x.1.lower, x.1.upper)) = some (82, 4178) := by decide
+
+end DastardV.C12
